@@ -360,7 +360,8 @@ JOBS = [
 
 TRUSTED_BASE = [
     'cbmc 6.11.0 / goto-instrument --dfcc / minisat2; IEEE-754 binary64 semantics of cbmc equal those of the compiled code (x86-64 SSE2, no -ffast-math)',
-    'extraction rules R1..R21c of vlib/cxx2c.py / vlib/tu.py preserve the meaning of the C++ constructs they rewrite; ghost captures only add assignments to ghost globals (generated TU kept in out/tu, sha256 in evidence; rules applied per function under extraction_rules)',
+    'extraction rules R1..R22 (incl. R5b, R9b) of vlib/cxx2c.py / vlib/tu.py preserve the meaning of the C++ constructs they rewrite; ghost captures only add assignments to ghost globals; job-specific rewrites (R16: operators of helper classes, container / stream accesses, member-object construction) are listed per function under extraction_rules, with the operator definitions they rely on checked textually (generated TU kept in out/tu, sha256 in evidence)',
+    'clauses marked only=replace with src=purity / src=ghost exist for callers only: that a static / const function is a deterministic function of its arguments (uninterpreted functions for transit, transitdirect, Accumulator::Add / Sum) is ASSUMED from its frame (proved: it writes nothing else), and ghost records of calls are bookkeeping, not obligations of the callee',
     'shim/libm_models.h: exact models of remainder/remquo (by 720, 360 and 90; |x| < 2^52), ldexp, pow(10,k), sqrt(1/2), sqrt(3); range-only models of sin, cos, atan2, hypot, sqrt; other libm functions uninterpreted (deterministic); conformance-tested against glibc by tests/libm_conformance.c in setup.sh',
     'shim/verif_shim.h: std::string modelled as a buffer of VERIF_STRCAP bytes with explicit length; libstdc++ number parsing/printing not modelled',
     'message expressions of throw GeographicErr(...) are dropped by rule R7 (message text is never verified)',
